@@ -353,6 +353,9 @@ class Folder(FileSystemItemABC):
                 file.scan()
                 if file.visible_health_status == FileSystemItemHealthStatus.CORRUPT:
                     self.visible_health_status = FileSystemItemHealthStatus.CORRUPT
+            # the folder has been scanned in this step (as part of a whole-node scan): observations that only refresh
+            # after a scan must pick the result up, as they do for the folder's own scan
+            self._scanned_this_step = True
             return True
 
         if self.scan_countdown <= 0:
